@@ -214,7 +214,9 @@ def _worker(hname, cfgs, opts, tasks, results, widx):
                             st.cands[key]["count"] += 1
                     # engine validation: concrete replay of this path's model must agree
                     if status == "done" and not cx.candidates and (st.validated < opts["validate_first"] or st.done % opts["validate_every"] == 0):
-                        m = cx._nice_model()
+                        m = cx._nice_model(strict_only=True)
+                        if m is None:
+                            st.counters['validation_skipped_tie_only_path'] = st.counters.get('validation_skipped_tie_only_path', 0) + 1
                         if m is not None:
                             inputs = cx._inputs_from_model(m)
                             res = replay_concrete(hmod, cfg, inputs)
